@@ -8,25 +8,40 @@ from twisted.names import dns
 from corr import _dns as D
 from corr import C32 as G          # the structured message generator (valid encodings to mutate)
 
-HEADLINE = "TwistedProps.C33.message_decode_total"
+HEADLINE = "TwistedProps.C33.message_decode_total"   # + tcp_dataReceived_total, tcp_segmentation_invariance, datagram_decode_total
 RULE = ("valid encodings of random messages over every Record_* class (the C32 generator), then: cut at every kind of boundary, "
         "1..4 bytes overwritten (0x00/0xC0/0xFF/offset bytes), RDLENGTH / section counts / label lengths made bogus, compression "
         "pointers redirected (self, forward, mutual cycles, chains through every earlier pointer), record TYPE rewritten to each "
         "supported type in turn so that every Record_*.decode sees foreign RDATA; hand-made pointer cycles; short and random byte "
         "strings; each through Message.fromStr (and _EDNSMessage.fromStr), DNSDatagramProtocol.datagramReceived and a framed "
-        "DNSProtocol.dataReceived, plus raw TCP segmentations; distinct = (op, mutation kind, outcome class, record types reached)")
+        "DNSProtocol.dataReceived; TCP streams (good frames, frames that do not decode - pointer cycle, cut message, zero length -, "
+        "incomplete tails, ids present in liveMessages) in EVERY segmentation when short, byte by byte, at every pair of cut points "
+        "and in random segmentations (empty segments included) when long, through a fresh DNSProtocol (op 'tcpseg': events, exception, "
+        "final length/buffer/liveMessages); datagrams through DNSDatagramProtocol.datagramReceived with liveMessages/resends set "
+        "(op 'udpin'); distinct = (op, mutation kind, outcome class, record types reached)")
 ASSUMES = [
-    "the byte string is the DNS packet (the UDP payload, or the content of one 2-byte-length-prefixed TCP frame); the TCP stream "
-    "framing itself is outside the Lean model and is exercised by oracle-only cases (op 'tcpseg')",
+    "a TCP connection is a fresh DNSProtocol fed the segments in order; an exception out of dataReceived ends the connection (the "
+    "reactor logs it and calls connectionLost) - tcp_after_error shows that feeding on would hand over nothing more anyway",
+    "controller.messageReceived, the callbacks of a pending query's Deferred (whose exceptions the protocols catch and log) and "
+    "canceller.cancel() are the consumers of the modelled hand-over events, not part of the model",
     "a per-input wall time above 2 s counts as non-termination (typical decode time is well under a millisecond)",
 ]
 TRUSTED = ["CPython BytesIO semantics for short and negative reads, transcribed in readPrecisely/readPreciselyInt"]
 MANIFEST = {
     "text": "Lean theorems (TwistedProps/C33.lean): Name.decode's loop is a well-founded recursion on (unvisited 14-bit offsets, bytes "
             "left) - no input makes it loop; for every byte string Message.fromStr (and _EDNSMessage.fromStr) of the model returns a "
-            "message or raises EOFError/ValueError, the struct.error/TypeError/other branches of the primitives being unreachable. "
-            "Model tied to dns.py by differential runs on mutated encodings (pointer cycles, bogus lengths, every record type); the "
-            "real protocols' error handling and per-input time checked by the oracle.",
+            "message or raises EOFError/ValueError, the struct.error/TypeError/other branches of the primitives being unreachable "
+            "(message_decode_total, edns_decode_total). Entry points (model TwistedModel/Dns/Proto.lean): for every state of a "
+            "DNSProtocol and every segment dataReceived terminates and raises nothing but the decoder's EOFError/ValueError "
+            "(tcp_dataReceived_total, tcp_feed_total; struct.unpack('!H') unreachable failure); for every stream and every segmentation "
+            "the hand-overs (controller / pending query), the exception and the final length/buffer are those of cutting the stream at "
+            "the length prefixes and decoding frame after frame (tcp_segmentation_invariance, tcp_segmentation_independent; "
+            "frames_encode: the cuts of writeMessage's encoding are the packets); after an exception nothing more is handed over "
+            "(tcp_after_error); a frame that does not decode - e.g. a pointer cycle - raises in the TCP stream exactly the class for "
+            "which datagramReceived drops the datagram (tcp_malformed_frame_like_udp, pointer_cycle_in_tcp_stream); datagramReceived "
+            "never reaches its 'Unexpected decoding error' clause (datagram_decode_total, datagram_never_unexpected). "
+            "Model tied to dns.py by differential runs on mutated encodings (pointer cycles, bogus lengths, every record type) and on "
+            "TCP streams in all segmentations; per-input time and an independent framing reference checked by the oracle.",
     "note": "totality of the model; that the model's exception classes are Python's rests on the differential tie (partial in that sense)",
     "technique": "Lean 4 proof (well-founded recursion + exhaustive case analysis of failure modes) + differential tie on mutated inputs",
     "design_ref": "DESIGN.md §7 C33",
@@ -116,7 +131,59 @@ def corpus():
     a += [dict(c, op="edec") for c in a[4:]] + [dict(c, op="udp") for c in a[:8]] + [dict(c, op="tcp") for c in a[:8]]
     a += [{"op": "tcpseg", "mut": "corpus", "chunks": ["00"]}, {"op": "tcpseg", "mut": "corpus", "chunks": ["00", "0c" + "00" * 12]},
           {"op": "tcpseg", "mut": "corpus", "chunks": ["000c" + "00" * 6, "00" * 6 + "00"]}]
+    good, cyc18 = _hdr(), _hdr(nq=1) + b"\xc0\x0c\x00\x01\x00\x01"
+    fr = lambda *ps: b"".join(struct.pack("!H", len(p)) + p for p in ps)    # noqa: E731
+    a += [_seg([fr(good, cyc18, good)], "corpus"), _seg([bytes([x]) for x in fr(good, cyc18, good)], "corpus"),
+          _seg([fr(good)[:1], fr(good)[1:] + fr(good)[:3], b"", fr(good)[3:]], "corpus", live=[1]),
+          _seg([b"\x00\x00"], "corpus"), _seg([b"\x00", b"\x00"], "corpus"), _seg([b"\x00\x05abc", b"", b"de"], "corpus"),
+          _seg([], "corpus"), _seg([b""], "corpus"), _seg([fr(good, good), fr(good)], "corpus", live=[1, 7])]
+    a += [{"op": "udpin", "mut": "corpus", "data": d.hex(), "live": lv, "resends": rs}
+          for d in (b"", good, cyc18, good[:11]) for lv, rs in (([], []), ([1], []), ([], [1]), ([1], [1]), ([2], [3]))]
     return a
+
+
+def _seg(chunks, mut, live=()):
+    return {"op": "tcpseg", "mut": mut, "chunks": [c.hex() for c in chunks], "live": list(live)}
+
+
+def _compositions(b):
+    """every way of cutting b into non-empty consecutive segments (2**(len-1) of them)"""
+    n = len(b)
+    if n == 0:
+        yield []
+        return
+    for mask in range(1 << (n - 1)):
+        out, start = [], 0
+        for i in range(1, n):
+            if mask >> (i - 1) & 1:
+                out.append(b[start:i])
+                start = i
+        out.append(b[start:])
+        yield out
+
+
+def _streams(rng):
+    """(kind, stream, live ids): good frames, frames that do not decode, tails"""
+    good, cyc18 = _hdr(), _hdr(nq=1) + b"\xc0\x0c\x00\x01\x00\x01"
+    fr = lambda *ps: b"".join(struct.pack("!H", len(p)) + p for p in ps)    # noqa: E731
+    ps = []
+    for _ in range(rng.randint(1, 4)):
+        r = rng.random()
+        if r < 0.6:
+            ps.append(_valid(rng))
+        elif r < 0.7:
+            ps.append(cyc18)
+        elif r < 0.8:
+            ps.append(_mutate(rng, _valid(rng))[1])
+        elif r < 0.9:
+            ps.append(good)
+        else:
+            ps.append(_valid(rng)[:rng.choice([0, 5, 11])])
+    ps = [p for p in ps if len(p) < 65536]
+    tail = rng.choice([b"", b"", b"\x00", b"\x00\x20", b"\x00\x20abc", b"\xff\xff" + b"x" * 40])
+    ids = [struct.unpack("!H", p[:2])[0] for p in ps if len(p) >= 2]
+    live = rng.choice([[], [], ids[:1], ids[-1:], ids + [4242], [4242]])
+    return fr(*ps) + tail, list(dict.fromkeys(live))
 
 
 def generate(rng, tier):
@@ -142,11 +209,45 @@ def generate(rng, tier):
         if rng.random() < 0.5:
             chunks = [c for c in chunks if c]
         yield {"op": "tcpseg", "mut": "segments", "chunks": [c.hex() for c in chunks]}
+    # every segmentation of short streams
+    good = _hdr()
+    short = [b"\x00", b"\x00\x00", b"\x00\x00\x00", b"\x00\x00\x00\x00", b"\x00\x01\x07", b"\x00\x01\x07\x00\x00", b"\x00\x03abc\x00\x02",
+             b"\x00\x02\xc0\x00\x00\x01\x00", b"\x00\x05\x00\x01\x00"]
+    for st in short:
+        for ch in _compositions(st):
+            yield _seg(ch, "allseg-short")
+    full = struct.pack("!H", 12) + good
+    comps = list(_compositions(full))                       # 8192 segmentations of one 14-byte frame
+    for ch in (comps if tier != "quick" else rng.sample(comps, 400)):
+        yield _seg(ch, "allseg-frame", live=rng.choice([[], [1]]))
+    for i in range(n // 25):
+        st, live = _streams(rng)
+        r = rng.random()
+        if r < 0.25:
+            yield _seg([st[j:j + 1] for j in range(len(st))], "bytewise", live)
+        elif r < 0.5 and len(st) < 400:
+            i1 = rng.randrange(len(st) + 1)                  # every second cut point for a random first one
+            for i2 in range(i1, len(st) + 1, max(1, len(st) // 40)):
+                yield _seg([st[:i1], st[i1:i2], st[i2:]], "twocuts", live)
+        else:
+            cuts = sorted(rng.randrange(len(st) + 1) for _ in range(rng.randint(0, 8)))
+            yield _seg([st[a:b] for a, b in zip([0] + cuts, cuts + [len(st)])], "random", live)
+    for i in range(n // 25):
+        kind, data = rng.choice([("valid", None), ("mut", None), ("random", None)])
+        data = _valid(rng) if kind == "valid" else _mutate(rng, _valid(rng))[1] if kind == "mut" else \
+            bytes(rng.randrange(256) for _ in range(rng.choice([0, 1, 11, 12, 13, 30])))
+        mid = struct.unpack("!H", data[:2])[0] if len(data) >= 2 else 0
+        live = rng.choice([[], [mid], [mid + 1], [mid, 9]])
+        resends = rng.choice([[], [mid], [mid + 1]])
+        yield {"op": "udpin", "mut": kind, "data": data.hex(), "live": live, "resends": resends}
 
 
 def model_line(c):
+    ids = lambda l: ",".join(map(str, l)) or "-"      # noqa: E731
     if c["op"] == "tcpseg":
-        return None                                   # oracle only: the stream framing is not modelled
+        return f"tcp {ids(c.get('live', []))} " + (";".join(ch or "-" for ch in c["chunks"]) or ".")
+    if c["op"] == "udpin":
+        return f"udp {ids(c['live'])} {ids(c['resends'])} " + (c["data"] or "-")
     op = "edec" if c["op"] == "edec" else "dec"
     return f"{op} " + (c["data"] or "-")
 
@@ -154,9 +255,11 @@ def model_line(c):
 class _Controller:
     def __init__(self):
         self.got = []
+        self.events = []
 
     def messageReceived(self, m, proto, addr=None):
         self.got.append(m)
+        self.events.append("ctl " + D.show_message(m))
 
     def connectionMade(self, p):
         pass
@@ -165,12 +268,33 @@ class _Controller:
         pass
 
 
-def _observe_log(f):
+class _Canceller:
+    def cancel(self):
+        pass
+
+
+def _set_live(p, ctl, ids):
+    """pending queries: liveMessages[id] = (Deferred, timeout call), as DNSMixin._query leaves them"""
+    from twisted.internet import defer
+    for i in ids:
+        d = defer.Deferred()
+        d.addCallback(lambda m: ctl.events.append("qry " + D.show_message(m)))
+        p.liveMessages[i] = (d, _Canceller())
+
+
+def _observe_log(f, messages=False):
     """run f() collecting what it reports through the legacy log (log.err = 'unexpected')"""
     from twisted.python import log
     seen = []
 
     def obs(ev):
+        if messages:
+            if ev.get("isError"):
+                fl = ev.get("failure")
+                seen.append(("err", fl.type.__name__ if fl is not None else "error"))
+            else:
+                seen.append(("msg", log.textFromEventDict(ev) or ""))
+            return
         if ev.get("isError"):
             fl = ev.get("failure")
             seen.append(fl.type.__name__ if fl is not None else "error")
@@ -215,12 +339,35 @@ def _run(c, op):
         ctl = _Controller()
         p = dns.DNSProtocol(ctl)
         p.makeConnection(StringTransport())
+        _set_live(p, ctl, c.get("live", []))
+        raised = []
         try:
             for ch in c["chunks"]:
                 p.dataReceived(bytes.fromhex(ch))
         except BaseException as e:
-            return f"!raised {type(e).__name__}"
-        return f"delivered {len(ctl.got)}"
+            raised = [f"!raised {type(e).__name__}"]
+        ids = ",".join(str(k) for k in p.liveMessages) or "-"
+        state = f"state {'-' if p.length is None else p.length} {D.hx(p.buffer)} {ids}"
+        return " | ".join(ctl.events + raised + [state])
+    if op == "udpin":
+        ctl = _Controller()
+        p = dns.DNSDatagramProtocol(ctl)
+        p.startProtocol()
+        _set_live(p, ctl, c["live"])
+        for i in c["resends"]:
+            p.resends[i] = 1
+        data = bytes.fromhex(c["data"])
+        logged = _observe_log(lambda: p.datagramReceived(data, ("192.0.2.1", 53)), messages=True)
+        if ctl.events:
+            return ctl.events[0]
+        for kind, txt in logged:
+            if kind == "err":
+                return "unexpected " + txt
+            if txt.startswith("Truncated packet"):
+                return "truncated"
+            if txt.startswith("Invalid packet"):
+                return "invalid"
+        return "resend"
     data = bytes.fromhex(c["data"])
     if op == "dec":
         m = dns.Message()
@@ -263,12 +410,75 @@ def _run(c, op):
     return "bad-op"
 
 
+def _is_trace(out):
+    """a tcpseg observable (as opposed to the watchdog's '!hang' / an exception escaping the harness itself)"""
+    return out.split(" | ")[-1].startswith("state ")
+
+
+def _tcp_reference(c):
+    """what the property asks of a TCP connection, computed without DNSProtocol: cut the whole stream at the 2-byte length
+    prefixes, Message.fromStr on each frame in turn up to the first that raises; then the expected trace"""
+    stream = b"".join(bytes.fromhex(ch) for ch in c["chunks"])
+    live = list(c.get("live", []))
+    ev, pos = [], 0
+    while len(stream) - pos >= 2:
+        ln = int.from_bytes(stream[pos:pos + 2], "big")
+        if len(stream) - pos - 2 < ln:
+            break
+        m = dns.Message()
+        try:
+            m.fromStr(stream[pos + 2:pos + 2 + ln])
+        except BaseException as e:      # noqa: BLE001
+            return ev + [f"!raised {type(e).__name__}", "state"]
+        if m.id in live:
+            live.remove(m.id)
+            ev.append("qry " + D.show_message(m))
+        else:
+            ev.append("ctl " + D.show_message(m))
+        pos += 2 + ln
+    tail = stream[pos:]
+    st = f"- {D.hx(tail)}" if len(tail) < 2 else f"{int.from_bytes(tail[:2], 'big')} {D.hx(tail[2:])}"
+    return ev + [f"state {st} " + (",".join(map(str, live)) or "-")]
+
+
 def oracle(c, out):
     t, _last_t[0] = _last_t[0], 0.0
     if out == "!hang":
         return {"key": "decode-does-not-terminate", "detail": f"{c['op']} still running after {HANG_S}s on {str(c.get('data'))[:200]}"}
     if t > 2.0:
         return {"key": "slow-decode", "detail": f"{c['op']} took {t:.1f}s on {len(c.get('data', ''))//2} bytes"}
+    if c["op"] == "tcpseg" and _is_trace(out):
+        parts = out.split(" | ")
+        for ev in parts:
+            if ev.startswith("!raised ") and ev.split()[1] not in ALLOWED:
+                cls = ev.split()[1]
+                key = "tcp-short-segment-typeerror" if cls == "TypeError" else f"raises-{cls}"
+                return {"key": key, "detail": f"tcpseg raised {cls} on {str(c.get('chunks'))[:200]}"}
+        want = _tcp_reference(c)
+        got = parts
+        if any(ev.startswith("!raised") for ev in parts):
+            got, want = parts[:-1], want[:-1]           # after an exception only the hand-overs and the class are compared
+        if got != want:
+            return {"key": "tcp-framing-differs-from-reference",
+                    "detail": f"segments {str(c['chunks'])[:200]}: got {str(got)[:300]} but cutting the stream at the length prefixes gives {str(want)[:300]}"}
+        return None
+    if c["op"] == "udpin":
+        if out.startswith("unexpected"):
+            return {"key": f"udp-unexpected-{out.split()[1]}", "detail": f"datagramReceived reached 'Unexpected decoding error' ({out.split()[1]}) on {c['data'][:200]}"}
+        m = dns.Message()
+        try:
+            m.fromStr(bytes.fromhex(c["data"]))
+            want = ("qry " if m.id in c["live"] else "resend" if m.id in c["resends"] else "ctl ")
+            want += D.show_message(m) if want != "resend" else ""
+        except EOFError:
+            want = "truncated"
+        except ValueError:
+            want = "invalid"
+        except BaseException as e:      # noqa: BLE001
+            return {"key": f"raises-{type(e).__name__}", "detail": f"fromStr raised {type(e).__name__} on {c['data'][:200]}"}
+        if out != want:
+            return {"key": "lost-message" if out == "resend" else "udp-wrong-handling", "detail": f"datagramReceived: {out[:200]} but expected {want[:200]}"}
+        return None
     if out.startswith("!raised "):
         cls = out.split()[1]
         if cls not in ALLOWED:
@@ -284,6 +494,10 @@ def shrink(c):
         ch = c["chunks"]
         for i in range(len(ch)):
             yield dict(c, chunks=ch[:i] + ch[i + 1:])
+        for i in range(len(ch) - 1):
+            yield dict(c, chunks=ch[:i] + [ch[i] + ch[i + 1]] + ch[i + 2:])
+        if c.get("live"):
+            yield dict(c, live=[])
         return
     d = c["data"]
     for i in range(0, len(d), 2):
@@ -294,6 +508,15 @@ def shrink(c):
 
 
 def tag(c, out):
+    if c["op"] == "tcpseg" and _is_trace(out):
+        parts = out.split(" | ")
+        r = [e.split()[1] for e in parts if e.startswith("!raised")]
+        nq = sum(e.startswith("qry") for e in parts)
+        nc = sum(e.startswith("ctl") for e in parts)
+        st = parts[-1].split()
+        return f"tcpseg:{c.get('mut', '')}:{min(len(c['chunks']), 6)}seg:c{min(nc, 3)}q{min(nq, 2)}:{r[0] if r else 'ok'}:{'len' if st[1] != '-' else 'nolen'}{'+buf' if st[2] != '-' else ''}"
+    if c["op"] == "udpin":
+        return f"udpin:{c.get('mut', '')}:{out.split()[0]}:{bool(c['live'])}{bool(c['resends'])}"
     cls = out.split()[1] if out.startswith("!raised") else ("delivered" if out.startswith("delivered") else "msg")
     types = ""
     if cls == "msg":
